@@ -16,13 +16,13 @@ def items(ctx):
     q = ctx.quick
     rng = ctx.rng("c08")
     out = []
-    Lmax = 5 if q else 7
+    Lmax = 7 if q else 9
     for l1 in range(1, Lmax + 1):
         for l2 in range(1, Lmax + 1):
             psis = list(itertools.product(range(l1 + 1), range(l1 + 1), range(l2 + 1), range(l2 + 1)))
             for w in range(0, max(l1, l2) + 2):
                 # all psi 4-tuples (degenerate ones included: memory safety must hold there too), thinned
-                keep = 1.0 if (l1 * l2 <= 4) else (0.2 if q else 0.5)
+                keep = 1.0 if (l1 * l2 <= 4) else ((0.2 if q else 0.5) if l1 * l2 <= 25 else (0.06 if q else 0.2))
                 for psi in psis:
                     if psi != (0, 0, 0, 0) and rng.random() > keep:
                         continue
@@ -65,7 +65,7 @@ def items(ctx):
         out.append({"kind": "matrix", "s1": [[0]], "s2": [[0]], "series": [pts(rng, 2, 1) for _ in range(n)],
                     "blk": [0, 0, 0, 0], "triu": 1, "w": 0, "psi": [0, 0, 0, 0], "pen": 0, "ms": 0, "md": 0,
                     "prune": False, "inner": 0})
-    for n in (1, 2, 3, 9, 10):
+    for n in (1, 2, 3, 9, 10, 17):
         for rep in range(12 if q else 40):
             nd = rng.choice([1, 1, 2, 3])
             equal = rng.random() < 0.5
@@ -84,10 +84,10 @@ def items(ctx):
     return out
 
 
-RULE = ("cases: all (l1,l2) <= 5x5 (quick) / 7x7 (thorough), window 0..max+1, psi 4-tuples up to the series lengths "
+RULE = ("cases: all (l1,l2) <= 7x7 (quick) / 9x9 (thorough), window 0..max+1, psi 4-tuples up to the series lengths "
         "(all for tiny sizes, thinned otherwise; degenerate ones included), penalty/max_step/max_dist on/off, pruning, "
         "ndim 1-3, both inner distances; every block for n <= 4/5 through the serial and OpenMP distance-matrix routines "
-        "(ptrs and matrix layouts); DBA with random masks incl. the byte boundary (9-10 series); affinity matrices with "
+        "(ptrs and matrix layouts); DBA with random masks incl. the byte boundaries (9-10 and 17 series); affinity matrices with "
         "best_path_affinity / wps_max / negativize. Every call runs in a process with gcc ASan+UBSan "
         "(-fno-sanitize-recover) on a library compiled from /repo's C sources, caller buffers malloc'ed at exactly the "
         "documented sizes (distance rolling buffer internal; compact wps = dtw_settings_wps_length; full = (l1+1)(l2+1); "
